@@ -72,3 +72,14 @@ Example C18_generated_nonvacuous :
   connect_randomly_gen false 0 [] [0; 0] [10; 11] [20; 21] (Some 1) = GOk [(10, 20); (11, 21)] [20; 21] /\
   connect_randomly_gen true 5 [[2; 0; 1]; [1; 2; 0]] [] [10; 11; 12; 13] [0; 1; 2] None = GOk [(10, 2); (11, 0); (12, 1); (13, 1)] [2; 0; 1; 1].
 Proof. vm_compute. split; reflexivity. Qed.
+
+(* the property theorems, stated of the regenerated source itself (uneven mode; any oracle of random choices): *)
+Theorem C18_generated_randomly_each_source_once_and_capped : forall fuel shuffles choices src dest m r c, dest <> [] -> (0 < m)%nat -> NoDup dest ->
+  connect_randomly_gen false fuel shuffles choices src dest (Some m) = GOk r c ->
+  map fst r = src /\ (forall d, count d r <= m) /\ (forall d, In d c <-> 0 < count d r).
+Proof. exact generated_randomly_each_source_once_and_capped. Qed.
+Print Assumptions C18_generated_randomly_each_source_once_and_capped.
+Theorem C18_generated_never_asserts_when_feasible : forall fuel shuffles choices src dest m, dest <> [] -> (0 < m)%nat -> NoDup dest ->
+  connect_randomly_gen false fuel shuffles choices src dest (Some m) <> GAssert.
+Proof. exact generated_never_asserts_when_feasible. Qed.
+Print Assumptions C18_generated_never_asserts_when_feasible.
